@@ -98,9 +98,10 @@ def seed_res(seed):
 def plan(tier, seed):
     ress = RES + seed_res(seed)
     shards = []
+    k3_quick = (1, 3, 7, 192, 480) + seed_res(seed)[:1]
     for r in ress:
         for n0 in BPMS:
-            shards.append(("full", r, n0, 2 if tier == "quick" else 3))
+            shards.append(("full", r, n0, (2 if r in k3_quick else 1) if tier == "quick" else 3))
     for r in (1, 7, 192, 480):
         for n_events in LONG:
             shards.append(("long", r, n_events))
@@ -109,7 +110,7 @@ def plan(tier, seed):
             for n0 in SUB_BPMS:
                 for n1 in SUB_BPMS:
                     shards.append(("deep", r, n0, n1, 6 if r in (1, 192) else 5))
-    b = dict(long_maps="tempo maps of %r events (4 gap cycles x 3 BPM rotations) for resolutions 1, 7, 192, 480" % (LONG,), resolutions=list(ress), bpm_thousandths=list(BPMS), gaps=list(GAPS), segments=3, third_gap=[1, 192] if tier == "quick" else [1, 2, 192, 1000], third_bpm=list(BPMS3_QUICK) if tier == "quick" else list(BPMS))
+    b = dict(long_maps="tempo maps of %r events (4 gap cycles x 3 BPM rotations) for resolutions 1, 7, 192, 480" % (LONG,), resolutions=list(ress), bpm_thousandths=list(BPMS), gaps=list(GAPS), segments=3, third_segment_resolutions=(list(k3_quick) if tier == "quick" else "all"), third_gap=[1, 192] if tier == "quick" else [1, 2, 192, 1000], third_bpm=list(BPMS3_QUICK) if tier == "quick" else list(BPMS))
     if tier == "thorough":
         b["deep"] = "k=4..5 (k=6 for resolutions 1 and 192) over bpm %r, gaps [1,192]" % (SUB_BPMS,)
     return dict(shards=shards, bounds=b, budget_s=1500 if tier == "thorough" else 300)
